@@ -336,6 +336,8 @@ def section_secondq():
         ("ladder mode and a spin, longitudinal drive", [LadderOp("m"), s], NumberOperator(LadderOp("m")) + R(5, 11) * Ns,
          (LadderOp("m") + Dagger(LadderOp("m"))) * (Ns - R(1, 2)) + R(1, 3) * sx, 11, 3, None),
         ("matrix-valued, two blocks", [a], sympy.Matrix([[Na, 0], [0, Na + R(5, 3)]]), sympy.Matrix([[a + Dagger(a), 2 * a], [2 * Dagger(a), Na]]), 12, 3, [0, 1]),
+        ("matrix-valued, two blocks, immutable sympy matrices", [a], sympy.ImmutableMatrix([[Na, 0], [0, Na + R(5, 3)]]),
+         sympy.ImmutableMatrix([[a + Dagger(a), 2 * a], [2 * Dagger(a), Na]]), 12, 3, [0, 1]),
     ]
     import os
     import time
